@@ -11,6 +11,7 @@ func extJobs(cx *ctx) []*extJob {
 	out = append(out, rejectJobs(cx)...)
 	out = append(out, resetJobs(cx)...)
 	out = append(out, contJobs(cx)...)
+	out = append(out, syncedJobs(cx)...)
 	out = append(out, rpcJobs(cx)...)
 	return out
 }
@@ -26,6 +27,12 @@ func replayExt(cx *ctx, c *caseRec) ([]*caseRec, error) {
 		return cx.runReset(resetSpec{Fam: c.Family, V: variantByName(c.Variant), Names: c.History})
 	case "reset-cont":
 		return cx.runCont(contSpec{Fam: c.Family, V: variantByName(c.Variant), Prog: c.History, Full: true})
+	case "synced":
+		w, err := parseSyncedSpec(c.Family, c.Variant, c.History, c.Spec)
+		if err != nil {
+			return nil, err
+		}
+		return cx.runSynced(w)
 	case "rpc":
 		return cx.runRPC(rpcSpec{Fam: c.Family, V: variantByName(c.Variant), Names: c.History})
 	}
@@ -53,6 +60,7 @@ func extCoverage(cx *ctx) map[string]any {
 			"resets_performed": int(c.resets.Get()),
 		},
 		"reset-cont": contCoverage(cx),
+		"synced":     syncedCoverage(cx),
 		"rpc": map[string]any{
 			"cases":                      len(rpcSpecs(cx.r.Thorough())),
 			"alphabet":                   rpcAlphabet,
